@@ -111,7 +111,34 @@ RetVals == {S!GNil, S!GBool(TRUE), S!GInt("int", I(5)), S!GInt("int8", I(-128)),
             S!GFlt("float32", OneHalf), S!GFlt("float64", S!NZero), S!GFlt("float64", S!NaN), S!GStr(U_smile), S!GStr(<<>>),
             S!GSlice("iface", FALSE, <<S!GInt("int", I(1)), S!GStr(<<97>>)>>), S!GSlice("int", TRUE, <<>>), S!GMap("int", FALSE, <<K_a>>, <<S!GInt("int", I(1))>>),
             S!GStruct(TRUE, I(1), <<120>>, I(2), Half, S!GNil, I(3)), S!GStruct(FALSE, I(1), <<120>>, I(2), Half, S!GStr(<<97>>), I(3)), S!GPtrNil}
-Rets == {[fam |-> "ret", outs |-> o] : o \in {<<>>} \cup {<<a>> : a \in RetVals} \cup {<<a, b>> : a \in RetVals, b \in {S!GNil, S!GInt("int", I(5)), S!GStr(U_smile)}}
+(* results of every numeric kind, as the plain kind, a declared named type of it, a pointer to it and a pointer to  *)
+(* the named type, with the boundary values per width (ends of the range, just beyond every narrower width): one    *)
+(* and two results; structs whose fields are named types / pointers; maps keyed by integer kinds and named types    *)
+ZNegR(z) == S!NumNeg(z)
+CrossingR(k) == {ZAdd(w, 44) : w \in {w \in {8, 16, 32} : w < S!Bits(k)}}
+                \cup (IF k \in S!SIntKinds THEN {ZNegR(ZAdd(w - 1, 1)) : w \in {w \in {8, 16, 32} : w < S!Bits(k)}} ELSE {})
+NumResults(k) == IF k \in S!IntKinds THEN {S!GInt(k, z) : z \in {S!LoOf(k), S!HiOf(k), I(1)} \cup CrossingR(k)}
+                 ELSE {S!GFlt(k, n) : n \in {OneHalf, P2(24), S!NZero} \cup (IF k = "float64" THEN {P2(64), Tenth} ELSE {S!MaxF32})}
+Wraps(g) == {g, S!GNamed(g), S!GPtr(g), S!GPtr(S!GNamed(g))}
+KindResults == UNION {UNION {Wraps(g) : g \in NumResults(k)} : k \in S!NumKinds} \cup {S!GNilPtr(k) : k \in S!NumKinds}
+RECURSIVE InsSortedR(_, _)
+InsSortedR(seq, z) == IF seq = <<>> THEN <<z>>
+                      ELSE IF S!StrCmp(S!DigitsZ(z), S!DigitsZ(seq[1])) < 0 THEN <<z>> \o seq ELSE <<seq[1]>> \o InsSortedR(Tail(seq), z)
+RECURSIVE SortKeysR(_)
+SortKeysR(seq) == IF seq = <<>> THEN <<>> ELSE InsSortedR(SortKeysR(Tail(seq)), seq[1])
+KeySeqR(k) == SortKeysR(SetToSeq({S!LoOf(k), S!HiOf(k), I(1)} \cup CrossingR(k)))
+MapResults == {S!GIMap(k, nm, "int", FALSE, KeySeqR(k), [i \in 1..Len(KeySeqR(k)) |-> S!GInt("int", I(i))]) : k \in S!IntKinds, nm \in BOOLEAN}
+NSKindsR == <<"int", "int8", "int16", "int32", "int64", "uint", "uint8", "uint16", "uint32", "uint64">>
+PSKindsR == NSKindsR \o <<"float32", "float64">>
+PickR(k, which) == IF k \in S!FltKinds THEN S!GFlt(k, IF which = 1 THEN OneHalf ELSE P2(24))
+                   ELSE S!GInt(k, IF which = 1 THEN S!HiOf(k) ELSE IF which = 2 THEN S!LoOf(k) ELSE (IF S!Bits(k) = 8 THEN I(100) ELSE ZAdd(S!Bits(k) \div 2, 44)))
+StructResults == {S!GNStruct(p, [i \in 1..10 |-> S!GNamed(PickR(NSKindsR[i], w))] \o <<S!GNamed(S!GFlt("float64", OneHalf))>>) : p \in BOOLEAN, w \in {1, 2, 3}}
+                 \cup {[k |-> "pstruct", ptr |-> p, f |-> [i \in 1..12 |-> S!GPtr(PickR(PSKindsR[i], w))]] : p \in BOOLEAN, w \in {1, 2, 3}}
+                 \cup {[k |-> "pstruct", ptr |-> TRUE, f |-> [i \in 1..12 |-> S!GNilPtr(PSKindsR[i])]]}
+ReflRets == {[fam |-> "ret", outs |-> <<a>>] : a \in KindResults \cup MapResults \cup StructResults}
+            \cup {[fam |-> "ret", outs |-> <<a, S!GStr(U_smile)>>] : a \in KindResults}
+            \cup {[fam |-> "ret", outs |-> <<S!GInt("int", I(5)), a>>] : a \in {g \in KindResults : g.k \in {"named", "ptr"}}}
+Rets == ReflRets \cup {[fam |-> "ret", outs |-> o] : o \in {<<>>} \cup {<<a>> : a \in RetVals} \cup {<<a, b>> : a \in RetVals, b \in {S!GNil, S!GInt("int", I(5)), S!GStr(U_smile)}}
                                               \cup {<<S!GInt("int", I(1)), S!GStr(<<97>>), S!GBool(FALSE)>>}}
 
 Funcs == {[fam |-> "func", body |-> [b |-> "ret", v |-> v]] : v \in {IntV(4), NumV(OneHalf), StrV(K_a), S!Undef, NumV(P2(63)), NumV(S!NZero), S!Null}}
@@ -201,6 +228,9 @@ IfaceW == {IntV(5), NumV(OneHalf), StrV(<<115>>), S!BoolV(TRUE), S!Null, S!Undef
 WOf(k) == IF k = "string" THEN StrW ELSE IF k = "iface" THEN IfaceW ELSE NumW
 WithJs(op) == [op EXCEPT !.js = JsParts(op.v)]
 
+(* values assigned to length that are no array length (15.4.5.1), and a few that are after conversion *)
+LenVals == {IntV(-1), NumV(OneHalf), NumV(S!NaN), NumV(S!DecToNum(FALSE, <<1>>, 18))}
+           \cup (IF Wide THEN {StrV(<<120>>), NumV(S!NumNeg(Half)), NumV(S!PInf), NumV(S!NInf), S!Undef, S!Null, StrV(<<49>>), S!BoolV(TRUE), NumV(S!NZero), NumV(P2(64))} ELSE {})
 SliceOps(s) ==
     LET n == Len(s.js)
         canGrow == st.cap = Len(st.go) /\ lt.cap = Len(lt.go)     \* re-growing a shrunk slice (stale capacity) is not modelled
@@ -212,6 +242,8 @@ SliceOps(s) ==
     \cup (IF canGrow THEN {WithJs([op |-> "jspush", v |-> v, js |-> <<>>]) : v \in WOf(s.k)} ELSE {})
     \cup {[op |-> "jspop"]}
     \cup {[op |-> "jssetlen", n |-> m] : m \in {j \in {0, n - 1, n} \cup (IF canGrow THEN {n + 1} ELSE {}) : j >= 0}}
+    \cup (IF Len(st.js) >= 1 /\ Len(lt.js) >= 1          \* the truncated lengths 0 and 1 are then never a growth in either model
+          THEN {WithJs([op |-> "jssetlenv", v |-> v, js |-> <<>>]) : v \in LenVals} ELSE {})
     \cup {[op |-> "gowrite", i |-> i, g |-> GOf(s.k, 3)] : i \in {j \in {0} : j < Len(st.go) /\ j < Len(lt.go)}}
     \cup (IF s.mode = "field" THEN {[op |-> "goappend", g |-> GOf(s.k, 2)]} ELSE {})
 MapKeys == {K_a, K_b}
